@@ -14,7 +14,10 @@ CLAIMED = {
 CLAIMED["C01"] = dict(
     text="Per-type field sequences regenerated from zmsg.go on every run and interpreted by a Coq model of the field "
          "codecs; Coq theorems over all layouts/values (see Props/C01.v), incl. value->wire->value for every field kind, every field sequence and every record of all 81 translated layouts (RFC 1035 record octets made explicit) and wire->value->wire for 70 types (partial); model tied to /repo by the translator plus "
-         "vm_compute correspondence of pack octets, unpacked values and lengths for every registered type each run",
+         "vm_compute correspondence of pack octets, unpacked values and lengths for every registered type each run; EDNS0 option and "
+         "SVCB parameter codecs additionally modelled at Go struct level (Model/OptVal.v, OptValUnpack.v): value->wire->value up to the "
+         "decoder's normal form, agreement with the octet-level views, refuted witnesses for the non-canonical values; compared with the "
+         "real unpack()/pack() on generated values and raw octets every run",
     technique="machine-checked proof in Coq over translator-regenerated layout tables + model/implementation correspondence by vm_compute")
 CLAIMED["C09"] = dict(
     text="Coq theorems about an executable model of Msg.Truncate/truncateLoop/popEdns0 (section prefixes, OPT retained, TC "
@@ -53,10 +56,10 @@ CLAIMED["C12"] = dict(
     technique="machine-checked proof in Coq (induction over chunkings, invariant over the pool LTS) + model/implementation correspondence by vm_compute")
 CLAIMED["C05"] = dict(
     text="Coq theorems over models of the printers, the one-line lexer, type/class mnemonic tables (every code point), the "
-         "RFC 3597 generic form and a presentation grammar with layouts for 66 of the 74 presentable types (RRSIG/SIG times with the "
-         "clock as a parameter, NSEC3, CAA, NAPTR, CERT mnemonics, EUI/NID spellings included): printed text is re-read to the "
-         "same fields (any octets, any length); 8 types (AAAA, LOC, APL, HIP, IPSECKEY, AMTRELAY, SVCB, HTTPS) by direct oracle "
-         "only (partial); models tied to /repo by "
+         "RFC 3597 generic form and a presentation grammar with layouts for 70 of the 74 presentable types (RRSIG/SIG times with the "
+         "clock as a parameter, NSEC3, CAA, NAPTR, CERT mnemonics, EUI/NID spellings, AAAA with the full net.IP.String / netip "
+         "IPv6 text model, HIP, IPSECKEY / AMTRELAY with their type-dependent gateway included): printed text is re-read to the "
+         "same fields (any octets, any length); 4 types (LOC, APL, SVCB, HTTPS) by direct oracle only (partial); models tied to /repo by "
          "vm_compute correspondence and NewRR(String()) oracles on records from wire and from text for every type each run; "
          "48 recorded findings in known_findings.json",
     technique="machine-checked proof in Coq (induction over octet strings and grammars, exhaustive code-point sweeps) + model/implementation correspondence by vm_compute")
